@@ -103,9 +103,20 @@ fn long_extend(seeds: u64, config: &cgt_core::Config, cnt: &mut Counters) -> Vec
         for k in 0..(8 + seed as u32 % 6) {
             bond.push(Transaction { date: d(2019 + ((9 + k) / 12) as i32, 1 + (9 + k) % 12, 20), ticker: "BOND".into(), operation: Operation::Buy { amount: Decimal::from(2), price: gbp(rng.gen_range(300..400)), fees: gbp(0) } });
         }
+        // five more securities of the same shape at other dates (each block has its own order-sensitive same-day pair)
+        let mut others: Vec<Transaction> = Vec::new();
+        for j in 0..5u32 {
+            let t = format!("BND{j}");
+            let (y, m) = (2016 + (j as i32 + seed as i32) % 4, 2 + (j * 2 + seed as u32) % 9);
+            others.push(Transaction { date: d(y, m, 3), ticker: t.clone(), operation: Operation::Buy { amount: Decimal::from(10), price: gbp(1000), fees: gbp(0) } });
+            others.push(Transaction { date: d(y, m + 1, 7), ticker: t.clone(), operation: Operation::Accumulation { amount: Decimal::from(10), total_value: gbp(5000), tax_paid: gbp(0) } });
+            others.push(Transaction { date: d(y, m + 1, 7), ticker: t.clone(), operation: Operation::CapReturn { amount: Decimal::from(10), total_value: gbp(12000), fees: gbp(0) } });
+            others.push(Transaction { date: d(y, m + 2, 9), ticker: t.clone(), operation: Operation::Sell { amount: Decimal::from(3), price: gbp(800), fees: gbp(0) } });
+        }
         let cut = d(2020, 11, 30);
         let mut all = fund.clone();
         all.extend(bond.clone());               // one block per security: not in date order
+        all.extend(others);
         // later transactions: purchases and a sale, more than 30 days after the cut
         for k in 0..(1 + seed as u32 % 4) {
             all.push(Transaction { date: d(2021, 3 + k, 1), ticker: if k % 2 == 0 { "FUND" } else { "BOND" }.into(), operation: Operation::Buy { amount: Decimal::from(10), price: gbp(1100), fees: gbp(0) } });
